@@ -85,7 +85,7 @@ func expMsgs(b []byte, m *Msgs) []byte {
 func H_C04_Msgs() { pbC04(mkMsgs("")) }
 func H_C05_Msgs() { m := mkMsgs(""); pbC05(m, expMsgs(pbBuf(), m)) }
 func H_C09_Msgs() {
-	m := mkMsgs("a_")
+	m := &Msgs{M: mkLeaf("a_")}
 	_ = m.Size()
 	m2 := mkMsgs("b_")
 	m.M, m.Rm, m.Tail = m2.M, m2.Rm, m2.Tail
